@@ -154,6 +154,22 @@ def _run(algo, X, rank, cfg, n_iter_max, tol=None):
     cfg = dict(cfg)
     rs = cfg.pop("random_state", 0)
     X = tl.tensor(X)
+    if cfg.pop("api", None) == "class":
+        # the estimator-class entry point of the same algorithm (every explicit option must reach it)
+        cname = {"parafac": "CP", "non_negative_parafac": "CP_NN", "non_negative_parafac_hals": "CP_NN_HALS", "constrained_parafac": "ConstrainedCP",
+                 "tucker": "Tucker", "parafac2": "Parafac2"}[algo]
+        t = tol if tol is not None else (TINY if algo in ("non_negative_parafac", "non_negative_parafac_hals", "parafac2") else 0)
+        kw = dict(cfg)
+        data = kw.pop("slices", None) if algo == "parafac2" else None
+        tolkw = {"tol_outer": t} if algo == "constrained_parafac" else {"tol": t}
+        est = getattr(D, cname)(rank, n_iter_max=n_iter_max, random_state=rs, **tolkw, **kw)
+        dec = est.fit_transform(data if data is not None else X)
+        errs = getattr(est, "errors_", None)
+        if algo == "tucker":
+            return Result("tucker", dec, _errs(errs), tucker_dense(dec[0], dec[1]))
+        if algo == "parafac2":
+            return Result("parafac2", dec, _errs(errs), parafac2_slices(dec[0], dec[1], dec[2]))
+        return Result("cp", dec, _errs(errs), cp_dense(dec[0], dec[1]))
     if algo == "parafac":
         t = (0 if tol is None else tol)
         out = D.parafac(X, rank, n_iter_max=n_iter_max, tol=t, random_state=rs, return_errors=True, **cfg)
